@@ -23,7 +23,10 @@ def run_driver(requests, timeout=600):
                        timeout=timeout)
     if p.returncode != 0:
         raise DriverError(f"driver exit {p.returncode}: {p.stderr.decode()[:500]}")
-    lines = p.stdout.decode("utf-8").splitlines()
+    # one response per "\n"-terminated line (not `splitlines()`: U+0085, U+2028, \x0b … may occur inside JSON strings)
+    lines = p.stdout.decode("utf-8").split("\n")
+    if lines and lines[-1] == "":
+        lines.pop()
     if len(lines) != len(requests):
         raise DriverError(f"driver produced {len(lines)} lines for {len(requests)} requests")
     return [json.loads(x) for x in lines]
